@@ -41,7 +41,8 @@ Proof. exact next_goal_counts. Qed.
 (* the report of each interrupted / resumed solve is adjudicated by the same admission rule as C01 *)
 (* resumed solves of the RRT family (RrtModel.tree_calls: any number of solve() calls on the same planner without clear(), each
    with its own stream of iteration inputs, the tree carried over): the tree keeps its invariant — roots are start states, every
-   other node hangs off an earlier node by a motion the extension step vouches for — it only grows, and every call's report is
+   other node hangs off an earlier node by a motion the extension step vouches for (an extension adds a chain of motions, one in the
+   plain planners, one per propagation step with intermediate states) — it only grows, and every call's report is
    real with respect to the tree that call left behind: a chain of vouched motions from a start state, exact => the goal accepts
    the last state, approximate => no state added during that call beats it, no report => that call added nothing.
    Instantiated by geometric::RRT and RLRT (motions checkMotion accepted; the node to extend from is the nearest one / a uniformly
@@ -50,7 +51,7 @@ Theorem C03_rrt_family_resumed_solves_report_real_paths :
   forall (St D I E : Type) (dlt : D -> D -> bool) (select : list (St * option (nat * E)) -> I -> nat) extend sat gdist (dflt : St)
          (EdgeOk : St -> E -> St -> Prop),
   (forall a b c, dlt a b = true -> dlt b c = true -> dlt a c = true) -> (forall a, dlt a a = false) ->
-  (forall n i s e, extend n i = Some (s, e) -> EdgeOk n e s) -> (forall tree i, tree <> [] -> (select tree i < length tree)%nat) ->
+  (forall n i, echain_ok St E EdgeOk n (extend n i)) -> (forall tree i, tree <> [] -> (select tree i < length tree)%nat) ->
   forall starts calls tree0 new_starts, TInv St E EdgeOk starts tree0 -> (forall x, In x new_starts -> In x starts) ->
   tree0 ++ map (fun x => (x, None)) new_starts <> [] ->
   let res := tree_calls St D I E dlt select extend sat gdist dflt tree0 new_starts calls in
